@@ -378,6 +378,25 @@ def _kf2_rewrite(ins):
     return [["const", n + "_m", ty, ones], ["binop", n, ty, a, "^", n + "_m"]]
 
 
+def _kf3_shape_block(b):
+    seen = {}
+    for ins in b["ins"]:
+        if ins[0] == "const" and genir.is_float(ins[2]) and genir.unfhex(ins[3]) == 0.0:
+            if seen.setdefault(ins[2], ins[3]) != ins[3]:
+                return True
+    return False
+
+
+def _kf3_model(desc):
+    """what the -O1+ pipeline makes of the module: CSE replaces a float zero constant by an earlier one of the other sign"""
+    import copy
+
+    d = copy.deepcopy(desc)
+    for f in d["functions"]:
+        genir.unify_zero_signs(f)
+    return d
+
+
 FINDINGS = {
     # riscv: SHRU8/SHRU16/DIVU16/REMU16 work on the whole register although the upper bits of a narrow value are undefined
     "C05-KF1": {"targets": RV, "shape": _kf1_shape, "rewrite": lambda ins: _rw_widen(ins, ins[2]),
@@ -385,6 +404,9 @@ FINDINGS = {
     # riscv: NEG/INV patterns negate / invert the operand's register in place
     "C05-KF2": {"targets": RV, "shape": _kf2_shape, "rewrite": _kf2_rewrite,
                 "forbid": [("unop", t, o) for t in ("i8", "u8", "i16", "u16", "i32", "u32") for o in ("-", "~")]},
+    # optimiser (every target, -O1 and higher): CSE merges the constants 0.0 and -0.0 of a block
+    "C05-KF3": {"targets": ("x86_64",), "module_shape": lambda d: any(_kf3_shape_block(b) for f in d["functions"] for b in f["blocks"]),
+                "model": _kf3_model, "forbid": [], "profile_kw": {"mixed_zero_signs": False}},
 }
 
 
@@ -399,6 +421,8 @@ def active_findings(target):
 
 
 def has_shape(desc, kid):
+    if "module_shape" in FINDINGS[kid]:
+        return FINDINGS[kid]["module_shape"](desc)
     shape = FINDINGS[kid]["shape"]
     return any(shape(ins) for f in desc["functions"] for b in f["blocks"] for ins in b["ins"])
 
@@ -433,6 +457,17 @@ def classify(case, msg):
         return None
     m = re.match(r"-O(\w) ", msg)
     levels = [m.group(1)] if m else case.get("levels", LEVELS)
+    for k in [k for k in cands if "model" in FINDINGS[k]]:
+        # the machine code of the module behaves exactly as the finding's model of the miscompiled module prescribes
+        try:
+            refs = reference(FINDINGS[k]["model"](case["module"]), case["calls"])
+            if levels != ["0"] and any(r is not None for r in refs) and all(run_x86(case["module"], case["calls"], lv, refs, "k" + lv) is None for lv in levels):
+                return k
+        except Discard:
+            pass
+        finally:
+            cleanup()
+    cands = [k for k in cands if "rewrite" in FINDINGS[k]]
     for kids in [[k] for k in cands] + ([cands] if len(cands) > 1 else []):
         c2 = dict(case, module=rewritten(case["module"], kids), levels=levels)
         try:
@@ -463,6 +498,8 @@ def profile_for(target):
         if kids:
             kw = dict(base.__dict__)
             kw["forbidden"] = set(base.forbidden) | set(x for k in kids for x in FINDINGS[k]["forbid"])
+            for k in kids:
+                kw.update(FINDINGS[k].get("profile_kw", {}))
             _PROFILE_CACHE[key] = genir.Profile(**kw)
         else:
             _PROFILE_CACHE[key] = base
@@ -520,5 +557,6 @@ def run(ctx):
     n = ctx.scale(96, 9600)
     ctx.pmap(_worker, [(subseed(ctx.seed, PID, w), max(1, n // 16)) for w in range(16)])
     ctx.extra["targets_covered"] = ["x86_64"] + (["riscv", "riscv:rvc"] if riscv_available() else [])
-    ctx.extra["excluded_shapes"] = {k: sorted("%s %s %s" % x for x in FINDINGS[k]["forbid"]) for t in RV for k in active_findings(t)}
+    ctx.extra["excluded_shapes"] = {k: sorted("%s %s %s" % x for x in FINDINGS[k]["forbid"]) + sorted("%s=%r" % x for x in FINDINGS[k].get("profile_kw", {}).items())
+                                    for t in BASE_PROFILES for k in active_findings(t)}
     ctx.extra["targets_not_covered"] = ["arm", "arm:thumb", "m68k", "mips (no emulator in the sandbox)"]
